@@ -293,7 +293,7 @@ class Ctx:
             "wall_s": round(wall, 2),
             "violations": len(self.violations),
         }
-        EVIDENCE.mkdir(exist_ok=True)
+        EVIDENCE.mkdir(parents=True, exist_ok=True)
         (EVIDENCE / f"{self.prop}.json").write_text(json.dumps(ev, indent=1, default=str))
         status = "VIOLATED" if self.violations else "held"
         print(f"[{self.prop}] {status}: evaluations={self.evaluations} validated={self.validated} "
